@@ -86,7 +86,14 @@ fn value_stages(rep: &mut Report, v: &Value, heap: &Rc<RefCell<Heap>>, env: &Env
 }
 
 fn source_case(text: &str, inputs: &J) -> Report {
+    source_case_mode(text, inputs, "all")
+}
+
+/// mode: "all", "static" (parse, AST, formatting, tokenising - no evaluation) or "eval"
+fn source_case_mode(text: &str, inputs: &J, mode: &str) -> Report {
     let mut rep = Report::new();
+    let do_static = mode != "eval";
+    let do_eval = mode != "static";
     // ---- parse
     let parsed = rep.stage("get_pairs", || get_pairs(text).map(|p| p.count()));
     match parsed {
@@ -102,6 +109,7 @@ fn source_case(text: &str, inputs: &J) -> Report {
         Some(Ok(_)) => {
             rep.tags.push("parse-ok");
             // ---- AST conversion and formatting, statement by statement
+            if do_static {
             rep.stage("pairs_to_expr + format_expr", || {
                 let mut problems = vec![];
                 if let Ok(pairs) = get_pairs(text) {
@@ -136,6 +144,13 @@ fn source_case(text: &str, inputs: &J) -> Report {
             .into_iter()
             .flatten()
             .for_each(|p| rep.problems.push(p));
+            }
+            if !do_eval {
+                rep.stage("wasm format_blots", || blots_wasm::format_blots(text, None).is_ok());
+                rep.stage("wasm format_blots width 10", || blots_wasm::format_blots(text, Some(10)).is_ok());
+                rep.stage("wasm tokenize", || blots_wasm::tokenize(text).is_ok());
+                return rep;
+            }
             // ---- evaluation, statement by statement in one session (as evaluate_source does)
             let heap = Rc::new(RefCell::new(Heap::new()));
             let env = Rc::new(Environment::new());
@@ -192,9 +207,11 @@ fn source_case(text: &str, inputs: &J) -> Report {
             }
         }
     }
-    rep.stage("wasm format_blots", || blots_wasm::format_blots(text, None).is_ok());
-    rep.stage("wasm format_blots width 10", || blots_wasm::format_blots(text, Some(10)).is_ok());
-    rep.stage("wasm tokenize", || blots_wasm::tokenize(text).is_ok());
+    if do_static {
+        rep.stage("wasm format_blots", || blots_wasm::format_blots(text, None).is_ok());
+        rep.stage("wasm format_blots width 10", || blots_wasm::format_blots(text, Some(10)).is_ok());
+        rep.stage("wasm tokenize", || blots_wasm::tokenize(text).is_ok());
+    }
     rep.stage("wasm evaluate_inline_expressions", || blots_wasm::evaluate_inline_expressions(json!([text]), json!({"a": {"Number": 1.0}})).is_ok());
     rep
 }
@@ -286,7 +303,7 @@ fn wasm_inputs_case(prog: &str, inputs: &J) -> Report {
 
 pub fn worker_case(case: &J) -> J {
     let rep = (|| match case["t"].as_str().unwrap_or("") {
-        "src" => source_case(case["s"].as_str().unwrap_or(""), &json!({})),
+        "src" => source_case_mode(case["s"].as_str().unwrap_or(""), &json!({}), case["mode"].as_str().unwrap_or("all")),
         "builtin" => {
             let args: Vec<String> = case["a"].as_array().map(|a| a.iter().filter_map(|x| x.as_str().map(|s| s.to_string())).collect()).unwrap_or_default();
             builtin_case(case["f"].as_str().unwrap_or(""), &args)
@@ -315,7 +332,7 @@ fn value_pool(thorough: bool) -> Vec<&'static str> {
         v.extend([
             "3", "1e15", "1e-7", "5e-324", "1.7976931348623157e308", "(-9007199254740992)", "\"abc\"", "\" x \"", "\"1.5\"", "\"km\"", "false", "[1]", "[\"a\", \"b\"]", "[[1], [2, 3]]",
             "[1, \"a\", 0, null, (0/0), 2, 1, \"a\", 0, null, (0/0), 2, 1, \"a\", 0, null, (0/0), 2, 1, \"a\", 0, null, (0/0), 2, 1]", "{\"\": 0}", "{k: {k: {}}}", "(() => 1)", "(x => x + \"s\")",
-            "((a?, b) => [a, b])", "sqrt", "(n => if n <= 0 then 0 else 1)", "\"{}\"", "\"{} {}\"", "[true, false]", "[{a: 1}, {a: 2}]", "1000000",
+            "((a?, b) => [a, b])", "sqrt", "(n => if n <= 0 then 0 else 1)", "\"{}\"", "\"{} {}\"", "[true, false]", "[{a: 1}, {a: 2}]", "100000",
         ]);
     }
     v
@@ -420,6 +437,9 @@ fn wasm_input_cases() -> Vec<(String, J)> {
 }
 
 struct CaseSpec {
+    /// false for evaluations of corpus deviations: a mutated real program may legitimately compute
+    /// for a long time, so a time-out there is recorded but is not a verdict
+    timeout_is_verdict: bool,
     family: &'static str,
     class: String,
     request: J,
@@ -440,7 +460,19 @@ fn run_cases(ctx: &Ctx, cases: &[CaseSpec]) {
                     }
                     let c = &cases[i];
                     ctx.count(1);
-                    match w.ask_timeout(&c.request, std::time::Duration::from_secs(10)) {
+                    let mut answer = w.ask_timeout(&c.request, std::time::Duration::from_secs(10));
+                    if let WorkerAnswer::Died(how) = &answer {
+                        if how.contains("no answer within") {
+                            if !c.timeout_is_verdict {
+                                ctx.outcome("eval-timeout-of-corpus-deviation-not-a-verdict");
+                                continue;
+                            }
+                            // a loaded machine must not turn a slow case into a hang: once more, generously
+                            ctx.outcome("timeout-retried");
+                            answer = w.ask_timeout(&c.request, std::time::Duration::from_secs(90));
+                        }
+                    }
+                    match answer {
                         WorkerAnswer::Ok(a) => {
                             if let Some(tags) = a["tags"].as_array() {
                                 for t in tags {
@@ -538,6 +570,7 @@ fn run_all(ctx: &Ctx) -> i32 {
             };
             for t in tuples {
                 cases.push(CaseSpec {
+                    timeout_is_verdict: true,
                     family: "builtin",
                     class: format!("builtin:{}", f.name()),
                     display: format!("{}({})", f.name(), t.join(", ")),
@@ -572,9 +605,19 @@ fn run_all(ctx: &Ctx) -> i32 {
     for (name, text) in crate::c07::corpus() {
         // benchmark programs that legitimately compute for seconds are run once through the CLI
         // (below) and get no deviations: a per-case time cap could not tell them from a hang
-        let t0 = std::time::Instant::now();
-        let probe = run_blots(&[text.clone()], None, None);
-        if t0.elapsed() > std::time::Duration::from_millis(150) || probe.timed_out {
+        // (fastest of three probes, so that a loaded machine does not shrink the family)
+        let mut best = std::time::Duration::from_secs(3600);
+        let mut timed_out = false;
+        for _ in 0..3 {
+            let t0 = std::time::Instant::now();
+            let probe = run_blots(&[text.clone()], None, None);
+            timed_out |= probe.timed_out;
+            best = best.min(t0.elapsed());
+            if best < std::time::Duration::from_millis(150) || timed_out {
+                break;
+            }
+        }
+        if best > std::time::Duration::from_millis(150) || timed_out {
             heavy.push((name.clone(), text.clone()));
             continue;
         }
@@ -623,14 +666,19 @@ fn run_all(ctx: &Ctx) -> i32 {
     ctx.set("source_texts", json!(texts.len()));
     for (fam, t) in &texts {
         let family: &'static str = if fam == "extras" { "extras" } else if fam == "captured-strings" { "captured" } else if fam.starts_with("corpus") { "corpus" } else if fam.starts_with("nesting") { "nesting" } else if fam.starts_with("tokens") { "tokens" } else if fam == "tree" { "tree" } else { "chars" };
-        cases.push(CaseSpec { family, class: fam.clone(), display: t.clone(), request: json!({"t": "src", "s": t}) });
+        if family == "corpus" {
+            cases.push(CaseSpec { timeout_is_verdict: true, family, class: fam.clone(), display: t.clone(), request: json!({"t": "src", "s": t, "mode": "static"}) });
+            cases.push(CaseSpec { timeout_is_verdict: false, family, class: fam.clone(), display: t.clone(), request: json!({"t": "src", "s": t, "mode": "eval"}) });
+        } else {
+            cases.push(CaseSpec { timeout_is_verdict: true, family, class: fam.clone(), display: t.clone(), request: json!({"t": "src", "s": t}) });
+        }
     }
     // ---- (d) JSON inputs
     for d in json_documents() {
-        cases.push(CaseSpec { family: "json", class: "json-input".into(), display: d.clone(), request: json!({"t": "json", "doc": d}) });
+        cases.push(CaseSpec { timeout_is_verdict: true, family: "json", class: "json-input".into(), display: d.clone(), request: json!({"t": "json", "doc": d}) });
     }
     for (prog, inputs) in wasm_input_cases() {
-        cases.push(CaseSpec { family: "wasm-inputs", class: "wasm-inputs".into(), display: format!("{} with inputs {}", prog, inputs), request: json!({"t": "wasm-inputs", "prog": prog, "inputs": inputs}) });
+        cases.push(CaseSpec { timeout_is_verdict: true, family: "wasm-inputs", class: "wasm-inputs".into(), display: format!("{} with inputs {}", prog, inputs), request: json!({"t": "wasm-inputs", "prog": prog, "inputs": inputs}) });
     }
     ctx.set("cases", json!(cases.len()));
     ctx.nontrivial_many(cases.iter().map(|c| fnv(&c.request.to_string())));
@@ -663,7 +711,14 @@ fn run_all(ctx: &Ctx) -> i32 {
             cli_jobs.push((format!("crasher:{}", truncate(s, 60)), vec![s.to_string()], None));
         }
     }
-    let results = par_map(&cli_jobs, |(_, args, stdin)| run_blots(args, stdin.as_ref().map(|s| s.as_bytes()), Some(8 << 20)));
+    let results = par_map(&cli_jobs, |(_, args, stdin)| {
+        let r = run_blots(args, stdin.as_ref().map(|s| s.as_bytes()), Some(8 << 20));
+        if r.timed_out {
+            // a loaded machine must not turn a slow run into a hang: once more, generously
+            return crate::proc::run_cmd(&crate::proc::blots_bin(), args, stdin.as_ref().map(|s| s.as_bytes()), Some(8 << 20), std::time::Duration::from_secs(180));
+        }
+        r
+    });
     for ((name, args, _), r) in cli_jobs.iter().zip(results.iter()) {
         ctx.count(1);
         ctx.outcome(if r.code == Some(0) { "cli-exit-0" } else { "cli-exit-nonzero" });
